@@ -51,4 +51,4 @@ def main(tier, seed):
     for i, f in enumerate(fails):
         chk.violation(f"bounded-replay#{i}", {"found": True, "kind": "c19-case", "case": f}, True)
     chk.resolve_failures(searcher)
-    return chk.finish(level="other")
+    return chk.finish(level="other", explanation="Structural clauses S1-S5 of classes.slotted / wrap are discharged as verification conditions from the real AST (symbolic namespace, loop invariant for the erase loop); the behavioural-equivalence half of the statement depends on CPython's class machinery and is only replayed by a bounded sweep over synthesised dataclasses (never counted as proved).")
